@@ -350,7 +350,7 @@ fiBIntPowerMod(FiBInt a0, FiBInt b0, FiBInt c0)
 		fiRaiseException((FiWord)"BIntPowerMod: modulo is zero");
 		exit(1);
 	}
-	if (bintIsZero(b)) return (FiBInt)bint1;
+	if (bintIsZero(b)) return (FiBInt)bintMod(bint1, c);	/* 0 when |c| = 1 */
 	reda = bintMod((BInt)a0,c);
 	if (bintIsZero(reda)) return (FiBInt)bint0;
 	if (bintIsNeg(b)) {
